@@ -140,6 +140,16 @@ CHECKS = {
              "and must not raise. Systemic divergences are listed as open findings by clause/operand-trait keys.",
         note="Trusted: vk/refmodel.py (declines where reference and suite are silent); canonicalisation; Grade judged by a validity predicate.",
         design="3/C01"),
+    "C02": dict(
+        category="exploration",
+        technique="exhaustive enumeration of adverbs x verb forms x operand universe (and two-adverb chains) against the adverb's definitional expansion, each plain application evaluated as its own source text",
+        text="For every adverb, verb form (operators, lambdas, named function, projection, Python callables) and operand of a closed "
+             "universe the adverb expression must equal the reference expansion assembled by the harness from plain applications of the "
+             "same verb (fold, prefixes, per-member results, pairs, iteration, fixpoint); chains are expanded recursively. Cases whose "
+             "expansion leaves the verb's reference domain are rejected. Exhaustive over the universe.",
+        note="Trusted: plain applications are evaluated by klongpy itself; C01's reference model supplies the domain predicates; "
+             "numbers in assembled lists are compared by value.",
+        design="3/C02"),
 }
 
 NOT_APPLICABLE = {
